@@ -617,6 +617,8 @@ def run(an: Analysis, rep):
     rep.run(purity, an, rep, "R09.P", ["from_code"])
     from .common import identity_rule
     rep.run(identity_rule, an, rep, "R09.I", ["from_code"])
+    from .common import assert_guard_rule as _agr9
+    rep.run(_agr9, an, rep, "R09.A", ["from_code"])
     rep.run(table_sequences_rule, an, rep)
     f, ifst, assign, mapattr, idx = find_rank_site(an)
     self_ = f.params[0]
